@@ -78,7 +78,7 @@ var recFields = []fld{
 	{"id", tN}, {"name", tS}, {"grp", tS}, {"vals", tA(tN)}, {"attrs", tO(tS)}, {"on", tB}, {"pt", tPt},
 }
 var ptFields = []fld{{"x", tN}, {"y", tN}}
-var mapKeys = []string{"a", "b", "c", "d", "e", "f", "k 1", "é", "zz", "q\"t", "A", "k2"}
+var mapKeys = []string{"a", "b", "c", "d", "e", "f", "k 1", "é", "zz", "q\"t", "A", "k2", "t\tb"}
 
 func fieldsOf(t *Ty) []fld {
 	switch t.K {
@@ -97,6 +97,7 @@ func fieldsOf(t *Ty) []fld {
 // ---------------------------------------------------------------------------
 
 type DocGen struct {
+	big     bool // "big data" document: thousands of elements in nums, hundreds in recs
 	r       *Rng
 	tag     string
 	poison  int // probability (per 100) that a field has a wrong type (aborted calls, F3)
@@ -251,11 +252,27 @@ func (g *DocGen) val(t *Ty, depth int) string {
 		if t.E.K == 'r' {
 			n = g.r.Intn(5)
 		}
+		if g.big && depth <= 1 {
+			switch t.E.K {
+			case 'n':
+				n = 4096 + g.r.Intn(2500)
+			case 'r':
+				n = 260 + g.r.Intn(400)
+			case 's':
+				n = 70 + g.r.Intn(300)
+			}
+		}
 		if depth <= 1 && g.r.P(1, 12) {
 			n = 13 + g.r.Intn(20) // long arrays with many tied keys
 		}
 		if depth <= 1 && t.E.K == 'n' && g.r.P(1, 60) {
 			n = 65 + g.r.Intn(240) // beyond typical size thresholds
+		}
+		if depth <= 1 && t.E.K == 'r' && g.r.P(1, 80) {
+			n = 64 + g.r.Intn(40)
+		}
+		if depth <= 1 && t.E.K == 'n' && g.r.P(1, 400) {
+			n = 4096 + g.r.Intn(2000) // beyond "large input" thresholds of parallel or chunked code paths
 		}
 		return g.arr(n, func(int) string { return g.val(t.E, depth+1) })
 	case 'o':
@@ -319,6 +336,59 @@ func (g *DocGen) val(t *Ty, depth int) string {
 	return "null"
 }
 
+// GenBigDoc: a document whose arrays are beyond the size thresholds at which
+// implementations switch strategy (pooled buffers, chunking, parallelism).
+func GenBigDoc(r *Rng, tag string) string {
+	g := &DocGen{r: r, tag: tag, poison: 0, spare: 20, big: true}
+	return g.val(tDoc, 0)
+}
+
+// bigExprs are evaluated on big documents; none of them enumerates object
+// members, so outcomes must be strictly equal.
+func GenBigExpr(r *Rng) *Expr {
+	cur := &Expr{K: KCur}
+	num := func(s string) *Expr { return lit(s) }
+	proj := func(l, rhs *Expr) *Expr { return &Expr{K: KProj, C: []*Expr{l, rhs}} }
+	filt := func(l, p, rhs *Expr) *Expr { return &Expr{K: KFilter, C: []*Expr{l, p, rhs}} }
+	gt := func(l, rr *Expr) *Expr { return mkS(KBin, ">", l, rr) }
+	nums, recs, strs := field("nums"), field("recs"), field("strs")
+	c := []*Expr{
+		proj(nums, nil),
+		proj(nums, fn("abs", cur)),
+		filt(nums, gt(cur, num("5")), nil),
+		fn("map", ref(mkS(KBin, "*", cur, num("2"))), nums),
+		fn("sort", nums),
+		fn("reverse", nums),
+		fn("sum", nums),
+		fn("length", proj(nums, nil)),
+		proj(recs, field("id")),
+		proj(recs, field("name")),
+		filt(recs, gt(field("id"), num("2")), field("name")),
+		filt(recs, field("on"), nil),
+		proj(fn("sort_by", recs, ref(field("id"))), field("name")),
+		proj(fn("sort_by", recs, ref(field("name"))), field("id")),
+		fn("max_by", recs, ref(field("id"))),
+		proj(recs, &Expr{K: KHash, Keys: []string{"a", "b"}, C: []*Expr{field("id"), field("name")}}),
+		fn("group_by", recs, ref(field("grp"))),
+		&Expr{K: KFlat, C: []*Expr{&Expr{K: KFlat, C: []*Expr{recs, field("vals")}}, nil}},
+		fn("join", &Expr{K: KStr, S: ","}, proj(recs, field("grp"))),
+		fn("join", &Expr{K: KStr, S: "-"}, strs),
+		&Expr{K: KSlice, C: []*Expr{nums}, N: []int{10, 4000, 7}, F: []bool{true, true, true}},
+		&Expr{K: KList, C: []*Expr{proj(nums, nil), proj(recs, field("id"))}},
+		proj(recs, mk(KSub, field("pt"), field("x"))),
+		fn("map", ref(fn("length", field("vals"))), recs),
+		fn("sort", proj(strs, nil)),
+		filt(strs, mkS(KBin, "!=", cur, &Expr{K: KStr, S: "x"}), nil),
+		fn("contains", nums, num("7")),
+		mk(KPipe, proj(recs, field("vals")), &Expr{K: KFlat, C: []*Expr{nil, nil}}),
+	}
+	e := pick(r, c)
+	if r.P(1, 3) {
+		e = &Expr{K: KLet, Keys: []string{"big"}, C: []*Expr{e, &Expr{K: KList, C: []*Expr{fn("length", &Expr{K: KVar, S: "big"}), &Expr{K: KVar, S: "big"}}}}}
+	}
+	return e
+}
+
 // GenDoc returns the typed encoding of a fresh root document.
 func GenDoc(r *Rng, tag string, poison, spare int) string {
 	g := &DocGen{r: r, tag: tag, poison: poison, spare: spare}
@@ -367,6 +437,11 @@ func intLit(r *Rng) *Expr {
 }
 
 func strLit(r *Rng) *Expr {
+	if r.P(1, 25) {
+		// a raw string whose body is byte-identical to the body of a quoted
+		// identifier used elsewhere: raw strings keep the backslash
+		return &Expr{K: KStr, S: pick(r, []string{`t\tb`, `q\"t`, `\u00e9`, `a\nb`}), F: []bool{true}}
+	}
 	s := pick(r, []string{"alpha", "a", "g1", "g2", "x", "é", ",", "b", ""})
 	if r.P(1, 3) {
 		return lit(jsonString(s))
@@ -646,7 +721,7 @@ func (g *ExprGen) gen(want, cur *Ty, depth int) *Expr {
 		case 1:
 			return fn(pick(g.r, []string{"sum", "avg", "max", "min"}), g.gen(tA(tN), cur, d))
 		case 2, 3:
-			return mkS(KBin, pick(g.r, []string{"+", "-", "*", "/", "%", "//"}), g.gen(tN, cur, d), g.gen(tN, cur, d))
+			return mkS(KBin, pick(g.r, []string{"+", "-", "*", "/", "%", "//", "×", "÷", "−"}), g.gen(tN, cur, d), g.gen(tN, cur, d))
 		case 4:
 			return fn(pick(g.r, []string{"abs", "ceil", "floor"}), g.gen(tN, cur, d))
 		case 5:
@@ -1045,6 +1120,15 @@ func GenExpr(r *Rng, b Bias) *Expr {
 	}
 	if r.Intn(100) < b.Invalid {
 		return mutateText(r, e)
+	}
+	if r.P(1, 50) {
+		// deeply nested text (parser recursion, depth guards)
+		n := pick(r, []int{120, 300, 450})
+		op, cl := "(", ")"
+		if r.P(1, 3) {
+			op, cl = "[", "]"
+		}
+		return &Expr{K: KRaw, S: strings.Repeat(op, n) + e.Text() + strings.Repeat(cl, n)}
 	}
 	return e
 }
